@@ -56,7 +56,7 @@ func TestExpiryBounds(t *testing.T) {
 	ttls := []time.Duration{
 		1, 3, 17, 999, time.Microsecond, 1500 * time.Microsecond, time.Millisecond, 250 * time.Millisecond, time.Second,
 		90 * time.Second, 5 * time.Minute, time.Hour, 36 * time.Hour, 30 * 24 * time.Hour, 365 * 24 * time.Hour,
-		10 * 365 * 24 * time.Hour,
+		10 * 365 * 24 * time.Hour, 40 * 365 * 24 * time.Hour, 100 * 365 * 24 * time.Hour, 150 * 365 * 24 * time.Hour, // beyond ~174 years t+T(1+J/2) itself leaves the int64 nanosecond range
 	}
 	jitters := []float64{-1, 0, 0.01, 0.25, 0.5, 1}
 
@@ -94,7 +94,7 @@ func TestExpiryBounds(t *testing.T) {
 					var ctxTTL time.Duration
 
 					// the first samples of every setting are fixed corner values (-1ns equals UnlimitedTTL numerically)
-					special := []time.Duration{-1, 1, 0, -time.Microsecond, -time.Hour}
+					special := []time.Duration{-1, 1, 0, -time.Microsecond, -time.Hour, -60 * 365 * 24 * time.Hour} // the last one: expiry before 1970 (negative unix time)
 
 					switch {
 					case s < len(special):
